@@ -14,7 +14,7 @@ RULE = (
     "level raises directly or in a plain helper; any subset of levels first awaits a batch item and any subset "
     "catches and re-raises; run via fn() and fn.asynq().value() on both builds: the user frames of the escaping "
     "exception's traceback must be exactly lvl0..lvl(d-1) once each, in order, ending at the raising frame, and "
-    "format_asynq_stack() called inside the deepest task must list lvl0..lvl(d-1) outermost first. "
+    "format_asynq_stack() called inside the deepest task must list lvl0..lvl(d-1) outermost first; the same holds for EVERY observation when the failed task is observed three times, when a task swallowed the failure before the caller observes it, and when a task caught it in a synchronous re-entry and then let it propagate. "
     "(b) filter_traceback on seeded line lists assembled from foreign lines, complete boilerplate runs of the three "
     "patterns, partial runs of every length at every position incl. the very end, and shuffled boilerplate: equality "
     "with an independent reference rewriting, plus structure (non-marker output is an in-order subsequence of the "
@@ -107,7 +107,11 @@ def make_chain(d, cfg, rt, stack_out):
     from .. import harness
 
     ns = {"A": A, "cfg": cfg, "harness": harness, "rt": rt, "UserErr": UserErr, "ctr": itertools.count(), "stack_out": stack_out, "adebug": adebug}
-    pieces = [(None, "def raiser():\n    raise UserErr('boom')\n")]
+    pieces = [
+        (None, "def raiser():\n    raise UserErr('boom')\n"),
+        (None, "@A()\ndef wrap_swallow(t):\n    try:\n        yield t\n    except UserErr:\n        pass\n    return 'swallowed'\n"),
+        (None, "@A()\ndef wrap_retry(t):\n    try:\n        t.value()\n    except UserErr:\n        pass\n    yield None\n    t.value()\n"),
+    ]
     for i in range(d):
         pieces.append(
             (
@@ -169,7 +173,7 @@ def run_chain_unit(unit, res, c, progress):
         while len(variants) < unit["variants"]:
             variants.append(([rnd.random() < 0.5 for _ in range(d)], [rnd.random() < 0.4 for _ in range(d)], rnd.random() < 0.5, [rnd.random() < 0.3 for _ in range(d)]))
         for vi, (catch, item, helper, nosource) in enumerate(variants):
-            for how in ("call", "value"):
+            for how in ("call", "value", "value_again", "swallowed_then_observed", "caught_in_sync_reentry_then_propagated"):
                 asynq.scheduler.reset()
                 rt = harness.HarnessRT({"nodes": [], "kinds": 1})
                 stack_out = []
@@ -177,13 +181,39 @@ def run_chain_unit(unit, res, c, progress):
                 if any(nosource) and not all(nosource):
                     c["chains_with_some_levels_without_source"] = c.get("chains_with_some_levels_without_source", 0) + 1
                 err = None
+                prefix = []
+                repeats = []
                 try:
                     if how == "call":
                         ns["lvl0"]()
-                    else:
+                    elif how == "value":
                         ns["lvl0"].asynq().value()
+                    elif how == "value_again":
+                        # the same failed task observed three times: every observation is a fresh, faithful traceback
+                        t = ns["lvl0"].asynq()
+                        for _ in range(2):
+                            try:
+                                t.value()
+                            except UserErr as e:
+                                repeats.append(tb_names(e))
+                        t.value()
+                    elif how == "swallowed_then_observed":
+                        # a task awaited the chain and swallowed its failure; later the caller observes the chain's task
+                        t = ns["lvl0"].asynq()
+                        ns["wrap_swallow"](t)
+                        try:
+                            t.value()
+                        except UserErr as e:
+                            repeats.append(tb_names(e))
+                        t.value()
+                    else:
+                        # a task calls the chain synchronously, catches, observes it again and lets it propagate
+                        prefix = ["wrap_retry"]
+                        ns["wrap_retry"](ns["lvl0"].asynq())
                 except UserErr as e:
                     err = e
+                if how not in ("call", "value"):
+                    c["chains_observed_more_than_once"] = c.get("chains_observed_more_than_once", 0) + 1
                 res["evaluations"] += 1
                 c["chains"] = c.get("chains", 0) + 1
                 c["max_chain_depth"] = max(c.get("max_chain_depth", 0), d)
@@ -195,13 +225,17 @@ def run_chain_unit(unit, res, c, progress):
                     res["nontrivial"].append(hash((d, tuple(catch), tuple(item), helper, how)) & 0xFFFFFFFFFFFF)
                 viol = []
                 want = ["lvl%d" % i for i in range(d)]
+                for k, names in enumerate(repeats):
+                    user = [n for n in names if n.startswith("lvl") or n.startswith("wrap_")]
+                    if user != want:
+                        viol.append(("traceback-frames", {"expected": want, "observed": user, "observation": k + 1}))
                 if err is None:
                     viol.append(("chain-error-did-not-escape", {}))
                 else:
                     names = tb_names(err)
-                    user = [n for n in names if n.startswith("lvl")]
-                    if user != want:
-                        viol.append(("traceback-frames", {"expected": want, "observed": user}))
+                    user = [n for n in names if n.startswith("lvl") or n.startswith("wrap_")]
+                    if user != prefix + want:
+                        viol.append(("traceback-frames", {"expected": prefix + want, "observed": user, "observation": len(repeats) + 1}))
                     last = "raiser" if helper else "lvl%d" % (d - 1)
                     if not names or names[-1] != last:
                         viol.append(("traceback-does-not-end-at-raising-frame", {"expected_last": last, "observed_tail": names[-3:]}))
